@@ -543,6 +543,10 @@ class Exec:
         t0, v0, _ = self.rows()
         n0 = len(t0)
         exc = None
+        armed = False
+        if op.get("interrupt_at_poll") is not None and self.integ == "scipy":
+            # Ctrl-C in the middle of the search, after some of its polling steps were completed
+            armed = integrators.install_faulty_ode(integrators.OdeFaultPlan(kind="interrupt", at_step=int(op["interrupt_at_poll"]))) == "sim"
         try:
             self.sim.simulate_to_steady_state(tolerance=op.get("tolerance", 1e-6), rel_norm=bool(op.get("rel_norm")))
         except Exception as e:  # noqa: BLE001
@@ -551,6 +555,18 @@ class Exec:
             if type(e).__name__ != "SimInterrupt":
                 raise
             exc = "SimInterrupt"
+        finally:
+            if armed:
+                integrators.uninstall_faulty_ode()
+        if exc == "SimInterrupt" and armed:
+            # the interrupted search reported nothing; the user goes on with the same simulator,
+            # which must continue from the state it last reported
+            t1, v1, _ = self.rows()
+            self.trace.add("steady_state", "interrupted", len(t1) - n0)
+            self.counters["fault_fired:steady_state_search_interrupted"] += 1
+            if len(t1) != n0:
+                self.resync()
+            return
         t1, v1, _ = self.rows()
         self.trace.add("steady_state", exc, [fnum(x) for x in t1[n0:]], [[fnum(x) for x in r] for r in v1[n0:]])
         self.counters["steady_state_op"] += 1
@@ -781,7 +797,10 @@ class Gen:
             ns = r.sample(self.vnames, r.randint(1, len(self.vnames)))
             return {"op": kind, "items": [[n, r.choice([0.5, 1.0, 2.0, 3.0, 5.0])] for n in ns]}
         if kind == "steady_state":
-            return {"op": kind, "tolerance": r.choice([1e-6, 1e-8]), "rel_norm": r.random() < 0.3}
+            op = {"op": kind, "tolerance": r.choice([1e-6, 1e-8]), "rel_norm": r.random() < 0.3}
+            if r.random() < 0.3:
+                op["interrupt_at_poll"] = r.choice([0, 1, 1, 2, 3, 5])
+            return op
         if kind in ("clear", "get_result"):
             return {"op": kind}
         if kind == "read_views":
